@@ -1,5 +1,5 @@
 (* C11 model — fast_pareto.py:fast_pareto_mask / _sfs_bnl_core, as repaired by the
-   "fix:" commit (2-D sweep without the 1e308 sentinel; rows admitted with an equal
+   "fix:" commit (2-D sweep without the 1e308 sentinel; rows let in with an equal
    sort key are re-checked).  Executable definitions only.
 
    Values are integers: the harness replaces every float by its rank within its
@@ -101,7 +101,7 @@ Fixpoint sweep_acc (S run : list lrow) (best : option Z) : list nat :=
 Definition sweep2 (L : list lrow) : list nat := sweep_acc (sort_by c0 L) [] None.
 
 (* general case: sort-filter-skyline.  State = (window, kept tags).  The window keeps
-   every row that no window row dominated when it arrived; a row admitted later with
+   every row that no window row dominated when it arrived; a row let in later with
    the same key un-marks the window rows it dominates. *)
 Definition sfs_step (key : vec -> Z) (st : list lrow * list nat) (r : lrow) : list lrow * list nat :=
   let '(win, kept) := st in
